@@ -1,6 +1,8 @@
 package props
 
 import (
+	"strconv"
+	"strings"
 	"reflect"
 	"bytes"
 	"encoding/binary"
@@ -255,6 +257,7 @@ func runCorpus(b *fw.B, rootsOnly bool) {
 					break
 				}
 				// text forms
+				corpusJSONMeaning(b, e, ps.name, sc, val, o)
 				if !corpusText(b, e, ps.name, ps.spec, enc, o) {
 					break
 				}
@@ -617,4 +620,101 @@ func corpusZeroValue(b *fw.B, e schemas.Entry, preset string, spec *common.Spec,
 		return
 	}
 	b.Inc("zero_value_roots_equal_default")
+}
+
+// corpusJSONMeaning: the JSON text form names every field; rendered by the library from the decoded struct it must say the same
+// as the value that was encoded, field by field. A decoder and encoder that agree with each other on a wrong field order
+// round-trip every encoding and are only visible here (and in the roots).
+func corpusJSONMeaning(b *fw.B, e schemas.Entry, preset string, sc *rs.Schema, val *rs.Value, o sszObj) {
+	var data []byte
+	var err error
+	if p, _ := fw.Guard(func() { data, err = json.Marshal(o.obj) }); p != nil || err != nil {
+		return // corpusText reports marshalling problems
+	}
+	dec := json.NewDecoder(bytes.NewReader(data))
+	dec.UseNumber()
+	var got any
+	if dec.Decode(&got) != nil {
+		return
+	}
+	got = rs.NormalizeJSON(got)
+	want := rs.JSONOf(sc, val)
+	if where := jsonDiff(want, got, ""); where != "" {
+		if jsonStyleOnly[e.Name] {
+			b.Inc("json_meaning_not_judged_other_text_convention")
+			return
+		}
+		b.Violate("json/meaning/"+e.Name, fmt.Sprintf("%s (%s preset): the JSON form of the decoded value differs from the value that was encoded at %s", e.Name, preset, where), nil)
+		return
+	}
+	b.Inc("json_meaning_compared")
+}
+
+// types whose JSON form follows another convention than "object of spec field names / 0x-hex / decimal strings" by design
+var jsonStyleOnly = map[string]bool{}
+
+func jsonDiff(want, got any, path string) string {
+	switch w := want.(type) {
+	case map[string]any:
+		g, ok := got.(map[string]any)
+		if !ok {
+			return path + ": not an object"
+		}
+		// field names are matched without regard to case and underscores: the property asks for a text form that round-trips,
+		// not for particular key spellings; what is compared is the value under each field
+		norm := func(k string) string { return strings.ToLower(strings.ReplaceAll(k, "_", "")) }
+		gn := map[string]any{}
+		for k, v := range g {
+			gn[norm(k)] = v
+		}
+		if len(gn) != len(w) {
+			return fmt.Sprintf("%s: %d fields, expected %d", path, len(gn), len(w))
+		}
+		for k, wv := range w {
+			gv, ok := gn[norm(k)]
+			if !ok {
+				return path + "." + k + ": field missing"
+			}
+			if d := jsonDiff(wv, gv, path+"."+k); d != "" {
+				return d
+			}
+		}
+		return ""
+	case []any:
+		g, ok := got.([]any)
+		if !ok {
+			return path + ": not an array"
+		}
+		if len(g) != len(w) {
+			return fmt.Sprintf("%s: %d elements, expected %d", path, len(g), len(w))
+		}
+		for i := range w {
+			if d := jsonDiff(w[i], g[i], fmt.Sprintf("%s[%d]", path, i)); d != "" {
+				return d
+			}
+		}
+		return ""
+	case string:
+		if arr, isArr := got.([]any); isArr && strings.HasPrefix(w, "0x") {
+			// a byte string written as an array of numbers
+			hexs := "0x"
+			for _, x := range arr {
+				n, err := strconv.Atoi(fmt.Sprint(x))
+				if err != nil || n < 0 || n > 255 {
+					return path + ": not a scalar"
+				}
+				hexs += fmt.Sprintf("%02x", n)
+			}
+			got = hexs
+		}
+		g, ok := got.(string)
+		if !ok {
+			return path + ": not a scalar"
+		}
+		if !strings.EqualFold(g, w) {
+			return fmt.Sprintf("%s: %s, expected %s", path, trunc(g, 40), trunc(w, 40))
+		}
+		return ""
+	}
+	return path + ": unexpected kind"
 }
